@@ -517,3 +517,60 @@ func c08inheritOnly(c *Ctx, pkg string) {
 		c.R.Undecided(rule, pkg+"#ancestor-sites", "the constructions of recursiveValuer are recognised", fmt.Sprintf("%d found", n))
 	}
 }
+
+// c08noSharedContainers (R13, round 6): nothing the package keeps for itself becomes part of a target. A package-level
+// map or slice of core/mapping may be read (lookup, range, len) but never flows anywhere else — into an interface,
+// a struct, a call or a result: the same-type shortcut of generateMap stores a map value it is given in the target as
+// it is, so a shared "empty map" handed to the filling path for an absent member is the target's map afterwards, for
+// every caller at once (one caller's `v.M["k"] = 1` shows up in the next caller's result, and in the absent nested
+// structs filled from it).
+func c08noSharedContainers(c *Ctx, pkg string) {
+	rule := "C08.R13"
+	var bad []string
+	loads := 0
+	for _, f := range c.P.AllFuncs(pkg) {
+		if f.Name() == "init" || strings.HasPrefix(f.Name(), "init#") {
+			continue
+		}
+		for _, b := range f.Blocks {
+			for _, ins := range b.Instrs {
+				ld, ok := ins.(*ssa.UnOp)
+				if !ok || ld.Op != token.MUL {
+					continue
+				}
+				g, ok := ld.X.(*ssa.Global)
+				if !ok || g.Pkg != f.Pkg {
+					continue
+				}
+				switch ld.Type().Underlying().(type) {
+				case *types.Map, *types.Slice:
+				default:
+					continue
+				}
+				loads++
+				for _, r := range *ld.Referrers() {
+					switch x := r.(type) {
+					case *ssa.Lookup, *ssa.Range, *ssa.DebugRef, *ssa.Index:
+						continue
+					case *ssa.IndexAddr:
+						// element read (a store through it is a write to package state, not our concern here)
+						continue
+					case *ssa.MapUpdate:
+						if x.Map == ld {
+							continue // the package maintains its own table
+						}
+					case *ssa.Call:
+						if bi, ok := x.Call.Value.(*ssa.Builtin); ok && (bi.Name() == "len" || bi.Name() == "cap") {
+							continue
+						}
+					case *ssa.BinOp:
+						continue // nil comparison
+					}
+					bad = append(bad, fmt.Sprintf("%s: %s lets the package-level %s escape (%s): once it is stored in a target it is shared by every caller", c.P.Pos(ld.Pos()), funcDisplay(f), g.Name(), strings.SplitN(r.String(), "\n", 2)[0]))
+				}
+			}
+		}
+	}
+	sort.Strings(bad)
+	c.R.Check(len(bad) == 0, rule, pkg+"#shared-containers", "package-level maps and slices of the package are only read in place (lookup, range, len): none is handed to the filling path, stored or returned", "-", fmt.Sprintf("%d loads of package-level containers; %s", loads, strings.Join(bad, "; ")), bad, loads+1)
+}
